@@ -9,6 +9,7 @@ pub mod c03;
 pub mod c04;
 pub mod c05;
 pub mod c06;
+pub mod c07;
 pub mod c08;
 pub mod c09;
 pub mod c10;
@@ -35,6 +36,7 @@ pub const REGISTRY: &[Entry] = &[
     Entry { id: "C04", run: c04::run, replay: c04::replay },
     Entry { id: "C05", run: c05::run, replay: c05::replay },
     Entry { id: "C06", run: c06::run, replay: c06::replay },
+    Entry { id: "C07", run: c07::run, replay: c07::replay },
     Entry { id: "C08", run: c08::run, replay: c08::replay },
     Entry { id: "C09", run: c09::run, replay: c09::replay },
     Entry { id: "C10", run: c10::run, replay: c10::replay },
